@@ -69,6 +69,7 @@ type request struct {
 	Row  []int     `json:"row"`
 	// how the request is written (not part of its meaning)
 	short bool // write "in t" instead of "in t(cols)" where possible
+	must  bool // systematic part: always run this probe (not only in the seeded sample)
 }
 
 func (r request) norm() request {
@@ -539,6 +540,19 @@ var cnames = []string{"a", "b", "c", "d", "e"}
 type setup struct {
 	name string
 	reqs []request
+	only func(request) bool // nil: the whole neighbourhood, else the probes to keep
+}
+
+// for the chain setups: requests that are refused late (after the links of the table
+// have been taken out) or that remove / re-create links
+func linkProbes(r request) bool {
+	switch r.Op {
+	case "RenameTable", "Drop":
+		return true
+	case "AlterDrop":
+		return len(r.Idxs) == 1
+	}
+	return false
 }
 
 func setups() []setup {
@@ -548,36 +562,54 @@ func setups() []setup {
 			ins("ta", 1, 1, 1), ins("ta", 2, 1, 2), ins("ta", 3, 2, 0),
 			create("tb", cl("a", "b", "c"), key("a"), index("b").in("ta", 0, "a"), index("c").in("ta", 3, "a")),
 			ins("tb", 1, 1, 2), ins("tb", 2, 3, 0), ins("tb", 3, 0, 1),
-		}},
+		}, nil},
 		{"self", []request{ // F9's shape: the referencing index comes after the key
 			create("tc", cl("a", "b", "c"), key("a"), key("c").in("tc", 0, "a")),
 			ins("tc", 1, 5, 0), ins("tc", 2, 6, 1), ins("tc", 3, 7, 2),
-		}},
+		}, nil},
 		{"self2", []request{ // referencing indexes before and after the key, another table too
 			create("ta", cl("a", "b", "c", "d"), index("b").in("ta", 0, "a"), key("a"), index("c").in("ta", 3, "a"), key("d")),
 			ins("ta", 1, 0, 0, 1), ins("ta", 2, 1, 1, 2), ins("ta", 3, 1, 2, 3),
 			create("tb", cl("a", "b"), key("a"), index("b").in("ta", 1, "a")),
 			ins("tb", 1, 1), ins("tb", 2, 3),
-		}},
+		}, nil},
 		{"mutual", []request{
 			create("tb", cl("a", "b"), key("a")),
 			create("ta", cl("a", "b", "c"), key("a"), index("b").in("tb", 0, "a")),
 			alterCreate("tb", nil, index("b").in("ta", 0, "a")),
 			ins("tb", 1, 0), ins("ta", 1, 1, 7), ins("tb", 2, 1), ins("ta", 2, 2, 8),
-		}},
+		}, nil},
 		{"multi", []request{ // multi column keys, same columns on both sides ("in ta")
 			create("ta", cl("a", "b", "c"), key("a", "b"), index("c")),
 			ins("ta", 1, 1, 1), ins("ta", 1, 2, 2), ins("ta", 2, 1, 3),
 			{Op: "Create", T: "tb", Cols: cl("a", "b", "c", "d"), short: true,
 				Idxs: []idxSpec{key("d"), index("a", "b").in("ta", 1), index("b", "c").in("ta", 0, "a", "b")}},
 			ins("tb", 1, 1, 1, 1), ins("tb", 1, 2, 1, 2), ins("tb", 0, 0, 0, 3),
-		}},
+		}, nil},
 		{"twofk", []request{ // two indexes of one table reference the same key
 			create("ta", cl("a", "b"), key("a"), key("b")),
 			ins("ta", 1, 1), ins("ta", 2, 2), ins("ta", 3, 3),
 			create("tb", cl("a", "b", "c", "d"), index("d"), key("a"), index("b").in("ta", 0, "a"), index("c").in("ta", 3, "a"), uniq("b", "c")),
 			ins("tb", 1, 1, 2, 0), ins("tb", 2, 2, 3, 5), ins("tb", 3, 0, 0, 5),
-		}},
+		}, nil},
+		{"chain", []request{ // ta <- tb, ta <- tc (added later), tb <- td, tb also references itself:
+			// rename / drop of tb is refused only after its links to ta have been taken out
+			create("ta", cl("a", "b"), key("a")),
+			create("tb", cl("a", "b", "c"), key("a"), index("b").in("ta", 0, "a"), index("c").in("tb", 0, "a")),
+			create("tc", cl("a", "b"), key("a"), index("b").in("ta", 3, "a")),
+			create("td", cl("a", "b"), key("a"), index("b").in("tb", 0, "a")),
+			ins("ta", 1, 0), ins("tb", 1, 1, 0), ins("tc", 1, 1), ins("td", 1, 1),
+		}, linkProbes},
+		{"chain2", []request{ // the same without the self reference (refusal by the final validation),
+			// three referencers of ta.key(a), the refused one in the middle
+			create("ta", cl("a", "b"), key("a"), key("b")),
+			create("tc", cl("a", "b"), key("a"), index("b").in("ta", 0, "a")),
+			create("tb", cl("a", "b", "c"), key("a"), index("b").in("ta", 0, "a"), index("c").in("ta", 1, "b")),
+			create("td", cl("a", "b"), key("a"), index("b").in("tb", 0, "a")),
+			alterCreate("ta", nil, index("b").in("ta", 0, "a")),
+			alterCreate("td", cl("c"), index("c").in("ta", 3, "a")),
+			ins("ta", 1, 1), ins("tb", 1, 1, 1), ins("tc", 1, 1), ins("td", 1, 1, 1),
+		}, linkProbes},
 		{"uniq", []request{ // unique indexes, several keys (BestKey), a view of a table's name
 			create("ta", cl("a", "b", "c", "d"), key("a"), uniq("b"), index("c", "d"), key("d", "a")),
 			ins("ta", 1, 0, 1, 1), ins("ta", 2, 0, 1, 2), ins("ta", 3, 4, 2, 1),
@@ -585,7 +617,7 @@ func setups() []setup {
 			view("v1", "ta join tb"),
 			create("tb", cl("a", "c"), key("c"), index("a").in("ta", 1, "a")),
 			ins("tb", 1, 1), ins("tb", 3, 2),
-		}},
+		}, nil},
 	}
 }
 
@@ -627,6 +659,7 @@ func fresh(used []string) string {
 func probes(ts []tinfo) []request {
 	res := []request{}
 	add := func(r request) { res = append(res, r) }
+	addm := func(r request) { r.must = true; res = append(res, r) }
 	names := []string{}
 	for _, t := range ts {
 		names = append(names, t.name)
@@ -642,9 +675,9 @@ func probes(ts []tinfo) []request {
 		nc := fresh(t.cols)
 		// alter drop
 		for _, ix := range t.idxs {
-			add(alterDrop(t.name, nil, index(ix.Cols...)))
+			addm(alterDrop(t.name, nil, index(ix.Cols...)))
 			if len(ix.Cols) > 0 {
-				add(alterDrop(t.name, cl(ix.Cols[0]), index(ix.Cols...)))
+				addm(alterDrop(t.name, cl(ix.Cols[0]), index(ix.Cols...)))
 			}
 		}
 		for i := range t.idxs {
@@ -660,23 +693,24 @@ func probes(ts []tinfo) []request {
 		add(alterDrop(t.name, nil, index(t.cols[0], nc)))
 		// alter rename
 		for _, c := range t.cols {
-			add(alterRename(t.name, cl(c), cl(nc)))
+			addm(alterRename(t.name, cl(c), cl(nc)))
 		}
 		add(alterRename(t.name, cl(t.cols[0]), cl(t.cols[len(t.cols)-1])))
 		add(alterRename(t.name, cl(nc), cl("w")))
 		if len(t.cols) >= 2 {
 			a, b := t.cols[0], t.cols[1]
 			add(alterRename(t.name, cl(a, b, nc), cl(nc, a, b))) // swap
-			add(alterRename(t.name, cl(a, b), cl(nc, a)))
+			addm(alterRename(t.name, cl(a, b), cl(nc, a)))
 			add(alterRename(t.name, cl(a, nc), cl(nc, "w")))
 			add(alterRename(t.name, cl(a, b), cl(nc, nc)))
 		}
 		// rename table, drop
 		if other != "" {
-			add(renameTable(t.name, other))
+			addm(renameTable(t.name, other))
 		}
+		addm(renameTable(t.name, "tz"))
 		add(renameTable(t.name, names[0]))
-		add(drop(t.name))
+		addm(drop(t.name))
 		// alter create
 		add(alterCreate(t.name, cl(nc)))
 		add(alterCreate(t.name, cl(t.cols[0])))
@@ -729,7 +763,7 @@ func probes(ts []tinfo) []request {
 		add(ensure(t.name, cl(nc), key(nc).in(t.name, 0, keysOf(t)[0]...), index(t.idxs[0].Cols...)))
 		for _, t2 := range ts {
 			if k := keysOf(t2)[0]; len(k) == 1 {
-				add(ensure(t.name, nil, index(t.cols[len(t.cols)-1]).in(t2.name, 0, k...)))
+				addm(ensure(t.name, nil, index(t.cols[len(t.cols)-1]).in(t2.name, 0, k...)))
 				add(ensure(t.name, cl(nc), uniq(nc).in(t2.name, 3, k...)))
 			}
 		}
@@ -1029,8 +1063,11 @@ func plan(nrandom, pct int, pairs bool) ([]scen, [][]request) {
 		allProbes = append(allProbes, ps)
 		scens = append(scens, scen{kind: "setup", setup: si})
 		for pi, p := range ps {
-			// all alter drops always (F9 lives there), a seeded sample of the others
-			if p.Op != "AlterDrop" && rnd.Intn(100) >= pct {
+			if s.only != nil && !s.only(p) {
+				continue
+			}
+			// the probes around the link bookkeeping always, a seeded sample of the others
+			if !p.must && s.only == nil && rnd.Intn(100) >= pct {
 				continue
 			}
 			scens = append(scens, scen{kind: "probe", setup: si, probe: pi})
